@@ -285,6 +285,51 @@ def run_sync_groups(rep, tier, seed):
     rep.cov['k8_sync_groups'] = dict(tot, runs=len(results))
     return results
 
+# ------------------------------------------------------------------ C20 under concurrency: backups
+def one_backup(args):
+    exe, base, idx, sc_seed, sched_seed = args
+    rng = vlib.Rng(sc_seed)
+    sc = k8lib.gen_scenario(rng, 'backup', nops=rng.range(10, 22))
+    # compactions and flushes running while the backups are taken
+    for t, ops in enumerate(sc.threads):
+        for j in range(rng.range(1, 3)):
+            ops.insert(rng.below(len(ops) + 1), rng.choice(['flush', 'crange 0 - -', 'crange 1 - -', 'compact - -']))
+    sched = k8lib.gen_schedule(vlib.Rng(sched_seed))
+    sched['reopen'] = 0
+    run = k8lib.run_k8(exe, base, 7000 + idx, sc, sched)
+    stats = {}
+    problems = k8lib.check_liveness(run, sc)
+    if not problems:
+        problems = k8lib.check_backups(run, sc, stats)
+    res = {'sc_seed': sc_seed, 'sched': sched, 'problems': problems, 'stats': stats, 'done': run.done}
+    if problems:
+        res['scenario'] = sc.to_json(); res['history'] = history_lines(run); res['groups'] = run.groups[:400]
+    return res
+
+def run_backup_points(rep, tier, seed):
+    """pthread build: backups taken while other threads write, flush and compact must open and be a point-in-time state."""
+    out = vlib.scratch_dir()
+    exe = k8lib.build_k8(out, 'pthread')
+    n = 60 if tier == 'quick' else 1200
+    rng = vlib.Rng(seed ^ 0xBAC20)
+    jobs = [(exe, out, i, rng.next(), rng.next()) for i in range(n)]
+    with ThreadPoolExecutor(vlib.NCPU) as ex:
+        results = list(ex.map(one_backup, jobs))
+    tot = {}; reported = 0
+    for r in results:
+        rep.evaluated(1); _merge(tot, r['stats'])
+        if r['stats'].get('backups_checked', 0) >= 1: rep.nontrivial(('k8backup', r['sc_seed'], r['sched']['seed']))
+        for p in r['problems'][:1]:
+            if p['kind'] in LIVENESS_KINDS: continue
+            if reported < 3:
+                reported += 1
+                rep.violation({'kind': 'K8-' + p['kind'], 'problem': p, 'scenario': r['scenario'], 'schedule': r['sched'],
+                               'scenario_seed': r['sc_seed'], 'history': r['history']})
+            else:
+                rep.violations.append(None)
+    rep.cov['k8_backups'] = dict(tot, runs=len(results))
+    return results
+
 # ------------------------------------------------------------------ C09
 C09_PROFILES = ['writers', 'writers', 'stall', 'stall', 'manual', 'manual', 'backup', 'closebg', 'closebg', 'c08', 'readers']
 
